@@ -259,6 +259,42 @@ impl<Kd: K> Interp<Kd> {
                 }
             }
         }
+        // Documented preconditions on plain numbers (a shrunk case may have lost its add_vars):
+        // the client does not make such calls.
+        if tok[0] != "MNEW" {
+            if self.rmgr.is_none() {
+                return "SKIP".into();
+            }
+            let n = self.nvars();
+            let var_ok = |t: &str| t.parse::<u32>().map(|v| v < n).unwrap_or(false);
+            let ok = match tok[0] {
+                "VAR" | "NVAR" | "SINGLETON" | "SUBSET0" | "SUBSET1" | "CHANGE" => var_ok(tok[3]),
+                "SADD" | "SETNAME" | "NAME" => var_ok(tok[2]),
+                "SATCOUNT" => tok[2].parse::<u32>().map(|v| if Kd::ZSET { v == n } else { v >= n }).unwrap_or(false),
+                "EVAL" => {
+                    let vs: Vec<u32> = if tok[2] == "-" {
+                        Vec::new()
+                    } else {
+                        tok[2].split(',').filter_map(|p| p.split_once('=').and_then(|(v, _)| v.parse().ok())).collect()
+                    };
+                    vs.iter().all(|v| *v < n) && (0..n).all(|v| vs.contains(&v))
+                }
+                "ORDER" => {
+                    let vs: Vec<u32> = tok[2..].iter().filter_map(|t| t.parse().ok()).collect();
+                    vs.len() < 2 || (vs.len() == n as usize && (0..n).all(|v| vs.contains(&v)))
+                }
+                "MKNODE" => {
+                    // var must be an inner node whose level is above the levels of hi and lo
+                    let (var, hi, lo) = (self.f(tok[2]), self.f(tok[3]), self.f(tok[4]));
+                    let lv = |h: RawF| if h.p.is_null() { u32::MAX } else { unsafe { (c.node_level)(h) } };
+                    var.p.is_null() || hi.p.is_null() || lo.p.is_null() || (lv(var) != u32::MAX && lv(var) < lv(hi) && lv(var) < lv(lo))
+                }
+                _ => true,
+            };
+            if !ok {
+                return "SKIP".into();
+            }
+        }
         match tok[0] {
             "MNEW" => {
                 let (cap, cache, threads) = self.cfg;
